@@ -128,6 +128,13 @@ def gen(rng, passes):
     L.append("while True:")
     body = []
     opened = []
+    if len(info["buttons"]) == 1 and not info["buttons"][0].get("peek") and rng.random() < 0.25:
+        # the button is declared at the TOP of the loop body (the emitter hoists it): it still takes its start-up sample in setup(),
+        # so a key held at power-up is not a click. (CPython makes a new Button per pass there: no host replay for these.)
+        b0 = info["buttons"][0]
+        k = next(i for i, ln in enumerate(L) if ln.startswith(f"{b0['name']} = Button("))
+        body.append(L.pop(k))
+        b0["loop_top"] = True
     for b in info["buttons"]:
         if rng.random() < 0.35:
             # the loop body OPENS with first assignments of new names that read the button
@@ -446,7 +453,7 @@ def run_case(case):
         out["counts"] = counts
         out["sample"] = [list(e) for e in f["events"] if e[1] in ("DR", "AR", "PULSE", "SER")][:14]
         # host replay (click counts / values) when every button signal starts released and the clock starts at 0
-        if all(b2["sig"][0] == 0 for b2 in info["buttons"]) and t0 == 0:
+        if all(b2["sig"][0] == 0 for b2 in info["buttons"]) and t0 == 0 and not any(b2.get("loop_top") for b2 in info["buttons"]):
             py = engine.host_reference(script, wd, tapes=tapes, passes=passes)
             out["py_status"] = py["status"]
             if py["status"] == "ok":
